@@ -607,3 +607,112 @@ package yqlib
 //@   loop 1:
 //@     invariant @nodes nodeList(lhs.MatchingNodes)
 //@     invariant @back-to-front {C02} (el == nil && iter() == len(lhs.MatchingNodes)) || (el != nil && elList(el) == lhs.MatchingNodes && elIdx(el) == len(lhs.MatchingNodes) - 1 - iter())
+
+// ---------------------------------------------------------------------------------------------
+// C12: in-place write protocol over a ghost file system (spec/fs.smt2)
+
+//@ ghostvar targetState Int
+//@ ghostvar targetMode Int
+//@ ghostvar tmpMode Int
+//@ ghostvar tmpPath String
+
+// Assumed POSIX / Go library behaviour (trusted): rename is atomic; create truncates; copy may stop half way.
+
+//@ func extern os.Rename
+//@   modifies targetState, targetMode
+//@   ensures implies(result != nil, targetState == old(targetState) && targetMode == old(targetMode))
+//@   ensures implies(result == nil && newpath == targetPath && oldpath == tmpPath, targetState == 1 && targetMode == old(tmpMode))
+//@   ensures implies(newpath != targetPath && oldpath != targetPath, targetState == old(targetState) && targetMode == old(targetMode))
+
+//@ func extern os.Create
+//@   modifies targetState
+//@   ensures implies(result1 != nil || name != targetPath, targetState == old(targetState))
+//@   ensures implies(result1 == nil, result0 != nil && fileOf(result0) == name)
+//@   ensures implies(result1 == nil && name == targetPath, targetState == 2)
+
+//@ func extern os.Open
+//@   ensures implies(result1 == nil, result0 != nil && fileOf(result0) == name)
+
+//@ func extern io.Copy
+//@   modifies targetState
+//@   ensures implies(!(istype(dst, *os.File) && fileOf(dst.(*os.File)) == targetPath), targetState == old(targetState))
+//@   ensures implies(istype(dst, *os.File) && fileOf(dst.(*os.File)) == targetPath && result1 == nil && istype(src, *os.File) && fileOf(src.(*os.File)) == tmpPath, targetState == 1)
+//@   ensures implies(istype(dst, *os.File) && fileOf(dst.(*os.File)) == targetPath && result1 != nil, targetState == 2)
+
+//@ func extern (*os.File).Sync
+
+//@ func extern (*os.File).Close
+
+//@ func extern (*os.File).Name
+//@   ensures result == fileOf(recv)
+
+//@ func extern os.Remove
+//@   modifies targetState
+//@   ensures implies(name != targetPath || result != nil, targetState == old(targetState))
+//@   ensures implies(name == targetPath && result == nil, targetState == 3)
+
+//@ func extern os.CreateTemp
+//@   modifies tmpPath, tmpMode
+//@   ensures implies(result1 == nil, result0 != nil && fileOf(result0) == tmpPath && tmpPath != targetPath)
+
+//@ func extern os.Stat
+//@   ensures implies(result1 == nil, result0 != nil)
+//@   ensures implies(result1 == nil && name == targetPath, infoMode(result0) == targetMode)
+
+//@ func extern os.Chmod
+//@   modifies tmpMode, targetMode
+//@   ensures implies(result != nil, tmpMode == old(tmpMode) && targetMode == old(targetMode))
+//@   ensures implies(result == nil && name == tmpPath, tmpMode == mode && targetMode == old(targetMode))
+//@   ensures implies(name != tmpPath && name != targetPath, tmpMode == old(tmpMode) && targetMode == old(targetMode))
+
+//@ func invoke os.FileInfo.Mode
+//@   trusted
+//@   ensures result == infoMode(recv)
+
+//@ func safelyCloseFile
+//@   props C12 C11
+//@   requires file != nil
+
+//@ func tryRemoveTempFile
+//@   props C12
+//@   modifies targetState
+//@   ensures implies(filename != targetPath, targetState == old(targetState))
+
+//@ func copyFileContents
+//@   props C12
+//@   modifies targetState
+//@   ensures @other-files-untouched implies(dst != targetPath, targetState == old(targetState))
+//@   ensures @success-means-complete implies(err == nil && dst == targetPath && src == tmpPath, targetState == 1)
+//@   ensures @failure-leaves-target {C12} implies(err != nil, targetState == old(targetState))
+//@   always @never-truncated {C12} implies(old(targetState) != 2, targetState != 2)
+
+//@ func tryRenameFile
+//@   props C12 C19
+//@   requires from == tmpPath && to == targetPath && from != to
+//@   modifies targetState, targetMode
+//@   ensures @success-means-complete implies(result == nil, targetState == 1)
+//@   ensures @failure-leaves-target implies(result != nil, targetState == old(targetState))
+//@   always @never-truncated implies(old(targetState) != 2, targetState != 2)
+
+//@ func changeOwner
+//@   trusted
+
+//@ func createTempFile
+//@   props C12
+//@   modifies tmpPath, tmpMode
+//@   ensures implies(result1 == nil, result0 != nil && fileOf(result0) == tmpPath && tmpPath != targetPath)
+
+//@ func (*writeInPlaceHandlerImpl).CreateTempFile
+//@   props C12 C19
+//@   requires w != nil && w.inputFilename == targetPath
+//@   modifies tmpPath, tmpMode, targetMode, w.tempFile
+//@   ensures @target-untouched targetState == old(targetState) && targetMode == old(targetMode)
+//@   ensures @mode-copied implies(result1 == nil, result0 != nil && w.tempFile == result0 && fileOf(result0) == tmpPath && tmpPath != targetPath && tmpMode == targetMode)
+
+//@ func (*writeInPlaceHandlerImpl).FinishWriteInPlace
+//@   props C12 C19
+//@   requires w != nil && w.inputFilename == targetPath && w.tempFile != nil && fileOf(w.tempFile) == tmpPath && tmpPath != targetPath
+//@   modifies targetState, targetMode
+//@   ensures @failed-evaluation-leaves-target implies(!evaluatedSuccessfully, targetState == old(targetState) && targetMode == old(targetMode) && result == nil)
+//@   ensures @success-means-complete implies(evaluatedSuccessfully && result == nil, targetState == 1)
+//@   ensures @failure-leaves-target implies(result != nil, targetState == old(targetState))
